@@ -38,15 +38,19 @@ def one(d):
             return sid, "PATCH DOES NOT APPLY"
         fired = {}
         only = None
-        if not os.environ.get("SEED_ALL_PROPS"):
+        if os.environ.get("SEED_OWN_ONLY"):
+            only = {meta["property"]}
+        elif not os.environ.get("SEED_ALL_PROPS"):
             only = set(meta.get("detected_by", [])) | {meta["property"]}
         res = run_all(wt, only)
-        if only:
-            # keep what earlier full runs recorded for the properties not re-run
-            pass
         for pr, (rc, keys, rules, und, mach) in sorted(res.items()):
             if keys or rc:
                 fired[pr] = {"exit": rc, "rules": rules, "violations": keys[:6], "undecided": sorted({u[0] for u in und})[:4]}
+        if os.environ.get("SEED_OWN_ONLY"):
+            # keep what earlier runs recorded for the properties not re-run
+            for pr, v in (meta.get("checks") or {}).items():
+                if pr not in res:
+                    fired.setdefault(pr, v)
         meta["checks"] = fired
         meta["detected_by"] = sorted(p for p, v in fired.items() if v["violations"])
         meta["detected_by_target_property"] = meta["property"] in meta["detected_by"]
@@ -63,7 +67,7 @@ def one(d):
 def main():
     pref = sys.argv[1:]
     dirs = sorted(d for d in glob.glob("/verif/seeded/*") if os.path.isdir(d) and (not pref or any(os.path.basename(d).startswith(p) for p in pref)))
-    with ThreadPoolExecutor(4) as ex:
+    with ThreadPoolExecutor(int(os.environ.get("SEED_THREADS", "4"))) as ex:
         for sid, res in ex.map(one, dirs):
             print(sid, res)
             sys.stdout.flush()
